@@ -79,6 +79,10 @@ impl LocSpec {
 impl BoundingBox {
     #[verifier::external_body]
     pub fn locspec(&self, ls: LocSpec) -> (r: (R32, R32)) ensures (val(r.0), val(r.1)) == loc_point(*self, ls) { unimplemented!() }
+    #[verifier::external_body]
+    pub fn width(&self) -> (r: R32) ensures val(r) == val(self.x2) - val(self.x1) { unimplemented!() }
+    #[verifier::external_body]
+    pub fn height(&self) -> (r: R32) ensures val(r) == val(self.y2) - val(self.y1) { unimplemented!() }
 }
 impl SvgElement {
 //@item src/element.rs :: impl SvgElement :: fn pop_attr
